@@ -301,8 +301,18 @@ func cellStores(a *ssa.Alloc) (stores []*ssa.Store, escapes bool) {
 				}
 			}
 		case *ssa.DebugRef:
-		case *ssa.FieldAddr, *ssa.IndexAddr:
-			// struct/array cell: handled by callers that care
+		case *ssa.FieldAddr:
+			for _, r2 := range *r.Referrers() {
+				if _, isStore := r2.(*ssa.Store); isStore {
+					escapes = true // written field by field
+				} else if _, isLoad := r2.(*ssa.UnOp); !isLoad {
+					if _, dbg := r2.(*ssa.DebugRef); !dbg {
+						escapes = true
+					}
+				}
+			}
+		case *ssa.IndexAddr:
+			escapes = true
 		default:
 			escapes = true
 		}
